@@ -240,12 +240,3 @@ Theorem C02_pthread_exit_example :
      {| r_time := 140; r_type := ENTRY; r_depth := 2; r_addr := 768 |}].
 Proof. exact thread_exit_example. Qed.
 Print Assumptions C02_pthread_exit_example.
-
-(* KNOWN FINDING (zero-duration-dropped): the positivity hypothesis [all_positive] of the history theorems is necessary:
-   a call whose entry and exit hooks read the same clock value, with no recorded callee, is not recorded at all
-   although no -t option is given (mcount_exit_filter_record: end - start > threshold, strict). *)
-Theorem C02_zero_duration_refuted :
-  exists f, all_timed f /\ heights f <= 1024 /\
-            out (fst (exec (plain 0 1024 1024 PG) (flat_forest f) (init, []))) <> flat_map (history 0) f.
-Proof. exact zero_duration_refuted. Qed.
-Print Assumptions C02_zero_duration_refuted.
